@@ -270,6 +270,8 @@ class Live(object):
 
 def strict_same(a, b):
     """== with types: 1, 1.0 and True are different results; floats with tolerance 0"""
+    if a is b:
+        return True
     if type(a) is not type(b):
         return False
     if isinstance(a, (list, tuple)):
@@ -701,6 +703,37 @@ def agree_history(c, ans, model_ans):
 
 # --------------------------------------------------------------------------- (b) debug
 
+class NoRepr(object):
+    """a host value that cannot be printed (a detached record, a proxy): evaluation has no business printing it"""
+
+    def __repr__(self):
+        raise RuntimeError('repr() of a host value during evaluation')
+
+    __str__ = __repr__
+
+
+def _deep_list(n=5000):
+    v = [1]
+    for _ in range(n):
+        v = [v]
+    return v
+
+
+# host values that evaluation may pass around but must not print, shared by the three parsers of a triple
+UNPRINTABLE = {'unrepr': NoRepr(), 'deepl': _deep_list()}
+UNPRINTABLE_FORMULAS = ['TAKES(unrepr)', 'IF(TRUE,unrepr,0)', 'TAKES(H9)', 'TAKES(unrepr,1)+1', 'IF(TRUE,deepl,0)',
+                        'TAKES(deepl)', 'TAKES(H9:H10)', 'IF(FALSE,1,H9)', 'TAKES(GIVES())', 'IF(1,GIVES(),2)']
+
+
+def safe_repr(rec):
+    try:
+        return repr(rec)[:300]
+    except Exception:
+        if isinstance(rec, dict):
+            return '{' + ', '.join('%r: %s' % (k, safe_repr(v)) for k, v in sorted(rec.items())) + '}'
+        return '<unprintable %s>' % type(rec).__name__
+
+
 def run_debug(c):
     regs = std_regs(False)
     trio = []
@@ -708,10 +741,16 @@ def run_debug(c):
         lv = Live(debug=(mode == 'on'))
         for r in regs:
             lv.apply(r)
+        for k, v in UNPRINTABLE.items():
+            lv.p.set_variable(k, v)
+        lv.p.set_function('TAKES', lambda *a: len(a))
+        lv.p.set_function('GIVES', lambda: UNPRINTABLE['unrepr'])
+        lv.cells['H9'] = UNPRINTABLE['unrepr']
+        lv.ranges[('H9', 'H10')] = [[UNPRINTABLE['unrepr']], [UNPRINTABLE['deepl']]]
         trio.append(lv)
     findings = []
     printed = {'off': 0, 'on': 0, 'toggle': 0}
-    for i, f in enumerate(c['formulas']):
+    for i, f in enumerate(list(c['formulas']) + UNPRINTABLE_FORMULAS):
         recs = []
         for mode, lv in zip(('off', 'on', 'toggle'), trio):
             if mode == 'toggle':
@@ -721,7 +760,7 @@ def run_debug(c):
                 recs.append(lv.p.parse(f))
             printed[mode] += buf.getvalue().count('Traceback (most recent call last)')
         if not (strict_same(recs[0], recs[1]) and strict_same(recs[0], recs[2])):
-            findings.append('%r: debug off %r, debug on %r, debug toggled %r' % (f, recs[0], recs[1], recs[2]))
+            findings.append('%r: debug off %s, debug on %s, debug toggled %s' % ((f,) + tuple(safe_repr(r) for r in recs)))
     return {'findings': findings[:5], 'printed': printed, 'n': len(c['formulas'])}
 
 
